@@ -14,7 +14,9 @@ ALL = ["C%02d" % i for i in range(1, 21)]
 
 
 def main():
+    import json
     d = sys.argv[1]
+    results = {}
     only = None
     allp = "--all" in sys.argv
     for a in sys.argv[2:]:
@@ -43,6 +45,13 @@ def main():
             fails = [l.strip() for l in q.stdout.splitlines() if l.strip().startswith("FAIL")]
             if q.returncode != 0:
                 fired.append((prop, fails))
+                keys = []
+                for f in fails:
+                    if "[" in f and f.endswith("]"):
+                        k = f[f.rindex("[") + 1:-1]
+                        if not k.endswith("|floor"):
+                            keys.append(k)
+                results.setdefault(name, {})[prop] = keys[:8] or ["(fail-closed: see the check output)"]
         if fired:
             print("%-10s CAUGHT by %s" % (name, ", ".join(p for p, _ in fired)))
             for p, fails in fired:
@@ -50,7 +59,15 @@ def main():
                     print("             %s: %s" % (p, f[:230]))
         else:
             print("%-10s MISSED (checked %s)" % (name, ",".join(props)))
+        results.setdefault(name, {})
         shutil.rmtree(base, ignore_errors=True)
+    if "--write" in sys.argv:
+        out = os.path.join(d, "RESULTS.json")
+        old = {}
+        if os.path.exists(out):
+            old = json.load(open(out))
+        old.update(results)
+        json.dump(old, open(out, "w"), indent=1, sort_keys=True)
 
 
 if __name__ == "__main__":
